@@ -252,6 +252,34 @@ CHECKS["C02"] = dict(
     technique="argument-identity checks + path exploration with a capture-effect table and errno facts + typestate + control dependence",
     design="3/C02")
 
+
+CHECKS["C04"] = dict(
+    text="Liveness over schedules is not a static property and is not decided. Decided are the wake-up obligations without which some schedule hangs, each on "
+         "all paths: (R1) the xcm_tp.c wrappers update the socket after the transport op on every return path they must (send/receive/finish always; "
+         "connect/server/accept on success; accept updates the server always), await() updates after storing the condition, top-level sockets are created "
+         "with auto_update on; (R2) the update op of tcp, tls, btls and utls rings its bell or assigns and updates every live sub-socket (utls servers: both "
+         "legs) - helpers inlined; (R3) a pending frame in the send buffer adds SENDABLE to what the sub-socket waits for; (R4) conn_update of btcp/btls handles "
+         "every live connection state, closed and bad ring the bell on every path, resolving consults xcm_dns_query_completed; (R5) in btls no path clears the "
+         "bell while RECEIVABLE may be awaited without having consulted SSL_has_pending; (R6) WANT_READ/WANT_WRITE store RECEIVABLE/SENDABLE as ssl_wants and "
+         "the handshaking state hands ssl_wants to the sub-socket; every OpenSSL I/O site passes its result to process_ssl_event; (R7) connect() is issued only "
+         "with the descriptor registered for EPOLLOUT, EINPROGRESS and a delayed track arm a timer; (R8) the resolver's entry points end in update_xpoll and a "
+         "finished query arms a zero timer; (R9) the blocking forms poll the socket's own descriptor for POLLIN after await(). Not decided: boundedness in "
+         "time; completeness of the 40-line ssl_condition/ssl_wants decision table (needs a model of OpenSSL).",
+    note=TRUSTED,
+    technique="must-follow / must-pass path rules with inlining + switch-case typestate + control dependence + constant-flag checks",
+    design="3/C04")
+CHECKS["C16"] = dict(
+    text="Decides structural necessary conditions; actual non-readiness at quiescent points is kernel state and is not decided. (R1) the epoll descriptor is "
+         "stored only by xpoll_create, a socket's xpoll only at creation, xcm_fd returns exactly it, and every sub-socket is created on its parent's xpoll; "
+         "(R2) the always-readable eventfd is registered with no interest, gets EPOLLIN exactly when a bell in use rings, and every change of a bell is followed "
+         "by that re-evaluation; (R3) the condition-to-event mappings of the leaf transports are decided exactly - ux's conn_event/server_event folded over all "
+         "8 condition values, btcp's flags or-ed only under the matching condition bit - and btls in state ready with nothing awaited neither rings its bell nor "
+         "asks the sub-socket for anything; (R4) every expired edge of timer_mgr_has_expired is followed on all paths by ack/cancel/reschedule of that timer; "
+         "(R5) a successful resolver result and a handed-over connected descriptor are deregistered from the epoll set.",
+    note=TRUSTED,
+    technique="who-may-write queries + control dependence / must-follow + exact folding of mapping functions + path exploration",
+    design="3/C16")
+
 NOT_APPLICABLE = {}
 
 
